@@ -509,3 +509,30 @@ pub fn constraints(sh: &Shape, b: &[u8], off: usize, len: usize, out: &mut Vec<C
         }
     }
 }
+
+/// The same FlexVec sequence as another implementation might have encoded it: the last item carries its real offset and is
+/// followed — after `slack` bytes (a multiple of the alignment) — by a terminating zero slot; the library itself always leaves the
+/// `MAX` marker on the last item. `v` = `as_bytes().len()`, `z` = `size()` of the value in `state`. `None` when the vector is empty
+/// or there is no room for the extra slot.
+pub fn terminate_chain(state: &[u8], l: &LenS, os: usize, slack: usize, v: usize, z: usize) -> Option<Vec<u8>> {
+    let dec = |b: &[u8]| -> u128 {
+        let mut x = 0u128;
+        if l.be { for &c in b { x = (x << 8) | c as u128; } } else { for &c in b.iter().rev() { x = (x << 8) | c as u128; } }
+        x
+    };
+    let mut pos = 0usize;
+    loop {
+        if pos + l.size > state.len() { return None; }
+        let next = dec(&state[pos..pos + l.size]);
+        if next == 0 { return None; }
+        if next == l.max() { break; }
+        pos += next as usize;
+    }
+    if z < pos + os || z + slack + os > v || v > state.len() { return None; }
+    let off = (z + slack - pos) as u128;
+    if off >= l.max() { return None; }
+    let mut out = state.to_vec();
+    out[pos..pos + l.size].copy_from_slice(&l.encode(off));
+    out[z + slack..z + slack + l.size].copy_from_slice(&l.encode(0));
+    Some(out)
+}
